@@ -2,8 +2,8 @@
 # tools/suite.sh [repo]  — runs the pinned suite on the given tree (default /repo) and reports which of the 301 baseline-passing tests do not pass
 R=${1:-/repo}
 J=$(mktemp /tmp/junit.XXXX.xml)
-(cd $R && /venv/bin/python -m pytest -q -p no:cacheprovider --timeout=900 --continue-on-collection-errors --junitxml=$J > /tmp/suite.log 2>&1)
-tail -1 /tmp/suite.log
+(cd $R && /venv/bin/python -m pytest -q -p no:cacheprovider --timeout=900 --continue-on-collection-errors --junitxml=$J > $J.log 2>&1)
+tail -1 $J.log
 python3 - $J <<'PY'
 import json, sys, xml.etree.ElementTree as ET
 sp=set(json.load(open('/root/.vp/BASELINE.json'))['stable_pass'])
@@ -14,4 +14,4 @@ bad=[n for n in sp if not res.get(n)]
 print(f"baseline tests passing: {len(sp)-len(bad)}/{len(sp)}", bad[:10])
 sys.exit(1 if bad else 0)
 PY
-rc=$?; rm -f $J; exit $rc
+rc=$?; rm -f $J $J.log; exit $rc
